@@ -1071,7 +1071,8 @@ def setitem(ex, obj, idx, v):
             c[j] = v
             obj.conc = tuple(c)
             return
-        base = obj.at if obj.conc is None else SBytes(obj.length, None, conc=obj.conc).at
+        obj.commit()
+        base = obj._at if obj.conc is None else SBytes(obj.length, None, conc=obj.conc).at
         zj, zv = zi(j), zi(v)
 
         def at(i, base=base):
